@@ -126,3 +126,59 @@ theorem sum_range_block {α : Type} [AddCommMonoid α] (m i0 r : Nat) (h : i0 + 
   rw [e1, e2, e3, zero_add, add_zero]
 
 end Ptn
+
+namespace Ptn.Mat
+open Finset
+
+/-- rows of a product are selected by selecting rows of the left factor: `(A[idx, :] @ B) = (A @ B)[idx, :]` -/
+theorem mul_selectRows_f {α : Type} [Semiring α] (A B : Mat α) (idx : List Nat) {i : Nat} (j : Nat)
+    (hi : i < idx.length) : ((A.selectRows idx).mul B).f i j = (A.mul B).f (idx.getD i 0) j := by
+  rw [mul_f, mul_f, selectRows_n]
+  apply sum_congr rfl
+  intro k _
+  rw [selectRows_f _ _ _ hi]
+
+/-- columns of a product are selected by selecting columns of the right factor: `(A @ B[:, idx]) = (A @ B)[:, idx]` -/
+theorem mul_selectCols_f {α : Type} [Semiring α] (A B : Mat α) (idx : List Nat) (i : Nat) {j : Nat}
+    (hj : j < idx.length) : (A.mul (B.selectCols idx)).f i j = (A.mul B).f i (idx.getD j 0) := by
+  rw [mul_f, mul_f]
+  apply sum_congr rfl
+  intro k _
+  rw [selectCols_f _ _ _ hj]
+
+/-- `tab` does not change products on in-range rows of the left factor -/
+theorem mul_tab_left_f {α : Type} [Semiring α] (A B : Mat α) {i : Nat} (j : Nat) (hi : i < A.m) :
+    (A.tab.mul B).f i j = (A.mul B).f i j := by
+  rw [mul_f, mul_f, tab_n]
+  apply sum_congr rfl
+  intro k hk
+  rw [tab_f _ hi (mem_range.1 hk)]
+
+/-- block embedding: a block `X` placed at `(i0, p0)` in a zero matrix times a block `Y` placed at `(p0, j0)`
+in a zero matrix is the product `X Y` placed at `(i0, j0)` (entry form, inner dimensions `X.n = Y.m`). -/
+theorem setBlock_zero_mul_f {α : Type} [Semiring α] (m k n i0 p0 j0 : Nat) (X Y : Mat α) (hXY : X.n = Y.m)
+    (hk : p0 + X.n ≤ k) (i j : Nat) :
+    (((Mat.zero m k).setBlock i0 p0 X).mul ((Mat.zero k n).setBlock p0 j0 Y)).f i j =
+      if (i0 ≤ i ∧ i < i0 + X.m) ∧ (j0 ≤ j ∧ j < j0 + Y.n) then (X.mul Y).f (i - i0) (j - j0) else 0 := by
+  rw [mul_f, setBlock_n, zero_n]
+  have e : ∀ p ∈ range k, ((Mat.zero m k).setBlock i0 p0 X).f i p * ((Mat.zero k n).setBlock p0 j0 Y).f p j =
+      if p0 ≤ p ∧ p < p0 + X.n then
+        (fun q => if (i0 ≤ i ∧ i < i0 + X.m) ∧ (j0 ≤ j ∧ j < j0 + Y.n) then X.f (i - i0) q * Y.f q (j - j0) else 0)
+          (p - p0)
+      else 0 := by
+    intro p _
+    simp only [setBlock_f, zero_f, ← hXY]
+    by_cases hp : p0 ≤ p ∧ p < p0 + X.n
+    · by_cases hi : i0 ≤ i ∧ i < i0 + X.m
+      · by_cases hj : j0 ≤ j ∧ j < j0 + Y.n
+        · simp [hp, hi, hj]
+        · simp [hp, hi, hj]
+      · simp [hp, hi]
+    · simp [hp]
+  rw [sum_congr rfl e, Ptn.sum_range_block k p0 X.n hk
+    (fun q => if (i0 ≤ i ∧ i < i0 + X.m) ∧ (j0 ≤ j ∧ j < j0 + Y.n) then X.f (i - i0) q * Y.f q (j - j0) else 0)]
+  by_cases hc : (i0 ≤ i ∧ i < i0 + X.m) ∧ (j0 ≤ j ∧ j < j0 + Y.n)
+  · simp only [if_pos hc]; rw [mul_f]
+  · simp only [if_neg hc]; exact sum_const_zero
+
+end Ptn.Mat
